@@ -26,6 +26,8 @@ class Layout:
 
     def __init__(self, areas, records, eol="\n", upper=True, mayrefuse=False, src="model", size="small"):
         self.size = size                # size class (spec/AppImage.tla) or "random" / "random-boundary"
+        self.scale = None               # [thr, side, rlen, eol] of the size class "scaled"
+        self._text = None
         self.areas = [(int(z), int(o), bytes(d)) for (z, o, d) in areas]
         self.records = [tuple(r) for r in records]
         self.eol = eol
@@ -53,15 +55,18 @@ class Layout:
         return True
 
     def klass(self):
+        size = self.size
+        if self.scale:
+            size = "text-just-%s-%d-chars" % (self.scale["side"], self.scale["thr"])
         return "order=%s zones=%s size=%s" % ("address" if self.in_address_order() else "shuffled",
-                                              "one" if len(self.zones()) <= 1 else "many", self.size)
+                                              "one" if len(self.zones()) <= 1 else "many", size)
 
     def to_json(self):
         return {"areas": [[z, o, d.hex()] for (z, o, d) in self.areas],
                 "records": [[r[0]] + [x.hex() if isinstance(x, (bytes, bytearray)) else x for x in r[1:]]
                             for r in self.records],
                 "eol": self.eol, "upper": self.upper, "mayrefuse": self.mayrefuse, "src": self.src,
-                "size": self.size}
+                "size": self.size, "scale": self.scale}
 
     @staticmethod
     def from_json(j):
@@ -71,8 +76,10 @@ class Layout:
                 recs.append(("data", r[1], bytes.fromhex(r[2])))
             else:
                 recs.append(tuple(r))
-        return Layout([(z, o, bytes.fromhex(d)) for (z, o, d) in j["areas"]], recs, j["eol"],
-                      j["upper"], j["mayrefuse"], j.get("src", "replay"), j.get("size", "small"))
+        lay = Layout([(z, o, bytes.fromhex(d)) for (z, o, d) in j["areas"]], recs, j["eol"],
+                     j["upper"], j["mayrefuse"], j.get("src", "replay"), j.get("size", "small"))
+        lay.scale = j.get("scale")
+        return lay
 
 
 def hex_line(rectype, addr, payload):
@@ -83,6 +90,8 @@ def hex_line(rectype, addr, payload):
 
 
 def hex_text(layout):
+    if getattr(layout, "_text", None) is not None:
+        return layout._text
     lines = []
     for r in layout.records:
         if r[0] == "ela":
@@ -98,7 +107,8 @@ def hex_text(layout):
         else:
             raise ValueError("writer: unknown record %r" % (r,))
     text = layout.eol.join(lines) + layout.eol
-    return text.upper() if layout.upper else text.lower()
+    layout._text = text.upper() if layout.upper else text.lower()
+    return layout._text
 
 
 def write_hex(layout, path):
@@ -117,11 +127,26 @@ def oracle_digest(layout):
     return hashlib.sha256(oracle_input(layout)).digest()
 
 
+def _runs(pieces, what):
+    """(linear start, bytes) pieces -> maximal contiguous runs, refusing overlaps"""
+    runs = []
+    for lin, data in sorted(pieces, key=lambda p: p[0]):
+        if runs:
+            end = runs[-1][0] + len(runs[-1][1])
+            if lin < end:
+                raise ValueError("%s: address written twice" % what)
+            if lin == end:
+                runs[-1][1].extend(data)
+                continue
+        runs.append([lin, bytearray(data)])
+    return [(a, bytes(d)) for a, d in runs]
+
+
 def check_writer(layout):
     """Machinery self-check, independent of the parser under test: reading the emitted text back
-    line by line (every checksum must close to 0 mod 256) into a sparse memory gives exactly the
-    bytes of the areas, each address written once, and the last record is the end-of-file record."""
-    mem, upper, last = {}, None, None
+    line by line (every checksum must close to 0 mod 256) gives exactly the bytes of the areas at
+    their addresses, each address written once, and the last record is the end-of-file record."""
+    pieces, upper, last = [], None, None
     for line in hex_text(layout).splitlines():
         if not line:
             continue
@@ -130,25 +155,16 @@ def check_writer(layout):
         raw = bytes.fromhex(line[1:])
         if sum(raw) & 0xFF or len(raw) != raw[0] + 5:
             raise ValueError("writer: bad checksum or length")
-        n, addr, typ, payload = raw[0], (raw[1] << 8) | raw[2], raw[3], raw[4:-1]
+        n, addr, typ = raw[0], (raw[1] << 8) | raw[2], raw[3]
         last = typ
         if typ == 4:
-            upper = (payload[0] << 8) | payload[1]
+            upper = (raw[4] << 8) | raw[5]
         elif typ == 0:
-            base = ((upper or 0) << 16) + addr
             if addr + n > ZONE:
                 raise ValueError("writer: data record over a 64 KiB boundary")
-            for i, b in enumerate(payload):
-                if base + i in mem:
-                    raise ValueError("writer: address written twice")
-                mem[base + i] = b
-    want = {}
-    for (az, ao, d) in layout.areas:
-        for i, b in enumerate(d):
-            if (az << 16) + ao + i in want:
-                raise ValueError("generator: areas overlap")
-            want[(az << 16) + ao + i] = b
-    if mem != want or last != 1:
+            pieces.append((((upper or 0) << 16) + addr, raw[4:-1]))
+    want = _runs([((az << 16) + ao, d) for (az, ao, d) in layout.areas], "generator")
+    if _runs(pieces, "writer") != want or last != 1:
         raise ValueError("writer: records do not write the image")
 
 
@@ -197,7 +213,9 @@ def place_areas(b):
         lens = [ulen[u - 1] for u in a["d"]]
         abs_start = (a["z"] << 16) + a["o"]
         to_boundary = ZONE - a["o"]                       # units before the zone boundary
-        if to_boundary <= len(a["d"]):
+        if b["size"] == "scaled":
+            start = abs_start                                # lengths are free; only order and gaps kept
+        elif to_boundary <= len(a["d"]):
             start = ((a["z"] + 1) << 16) - sum(lens[:to_boundary])
         elif zone_mult:
             start = a["z"] << 16                           # a completely filled zone starts at offset 0
@@ -217,7 +235,7 @@ def place_areas(b):
     return out
 
 
-def layout_from_model_sized(b, blocks, rng):
+def layout_from_model_sized(b, blocks, rng, rmax=None, eol=None):
     """A model layout under a size class other than "small": every unit becomes its block of real
     bytes, every abstract data record a run of real records (1..255 bytes, never over a 64 KiB
     boundary) written in order, type-04 records wherever the real zone changes (and where the
@@ -231,7 +249,8 @@ def layout_from_model_sized(b, blocks, rng):
         for u in a["d"]:
             unit_addr[u] = lin
             lin += len(blocks[u])
-    rmax = rng.choice((255, 255, 128, 64, 32))
+    exact = rmax is not None              # size class "scaled": records of exactly rmax bytes
+    rmax = rmax or rng.choice((255, 255, 128, 64, 32))
     records, wz, abs_zone = [], None, None
     for r in b["file"]:
         if r["t"] == "ela":
@@ -245,7 +264,7 @@ def layout_from_model_sized(b, blocks, rng):
             while i < len(data):
                 z, o = (lin + i) >> 16, (lin + i) & 0xFFFF
                 n = min(rmax, len(data) - i, ZONE - o)
-                if rng.random() < 0.02:
+                if not exact and rng.random() < 0.02:
                     n = rng.randrange(1, n + 1)
                 if z != wz:
                     records.append(("ela", z))
@@ -254,12 +273,107 @@ def layout_from_model_sized(b, blocks, rng):
                 i += n
         elif r["t"] == "eof":
             records.append(("eof",))
-    return Layout(areas, records, eol=rng.choice(["\n", "\r\n"]), upper=rng.random() < 0.7, src="model",
-                  size=b["size"])
+    return Layout(areas, records, eol=eol or rng.choice(["\n", "\r\n"]), upper=rng.random() < 0.7,
+                  src="model", size=b["size"])
+
+
+def _split(total, weights):
+    """total bytes over units in the given proportions, every unit at least one byte"""
+    w = sum(weights)
+    lens = [max(1, total * x // w) for x in weights[:-1]]
+    lens.append(max(1, total - sum(lens)))
+    return lens
+
+
+def _scaled_text_len(b, ulen, rlen, eol_len):
+    """number of characters of the file layout_from_model_sized(b with ulen, rmax = rlen) writes,
+    computed per zone segment (no record is materialised)"""
+    bb = dict(b, ulen=ulen)
+    starts = place_areas(bb)
+    unit_addr = {}
+    for a in b["areas"]:
+        lin = starts[(a["z"], a["o"])]
+        for u in a["d"]:
+            unit_addr[u] = lin
+            lin += ulen[u - 1]
+    chars, wz, abs_zone = 0, None, None
+    for r in b["file"]:
+        if r["t"] == "ela":
+            if r["z"] == abs_zone and wz is not None:
+                chars += 15 + eol_len
+            abs_zone = r["z"]
+        elif r["t"] == "data":
+            lin = unit_addr[r["d"][0]]
+            n = sum(ulen[u - 1] for u in r["d"])
+            while n > 0:
+                z, o = lin >> 16, lin & 0xFFFF
+                seg = min(n, ZONE - o)
+                if z != wz:
+                    chars += 15 + eol_len
+                    wz = z
+                chars += 2 * seg + ((seg + rlen - 1) // rlen) * (11 + eol_len)
+                lin += seg
+                n -= seg
+        elif r["t"] == "eof":
+            chars += 11 + eol_len
+    return chars
+
+
+def scaled_unit_lengths(b):
+    """Unit lengths for the size class "scaled": the proportions of b["ulen"], the total such that the
+    HEX text written with records of scale.rlen bytes lies just below / just above scale.thr characters
+    (the area highest in memory absorbs the fine tuning)."""
+    sc = b["scale"]
+    thr, rlen, eol_len = sc["thr"], sc["rlen"], (1 if sc["eol"] == "lf" else 2)
+    areas = sorted(b["areas"], key=lambda a: (a["z"] << 16) + a["o"])
+    weights = {id(a): [b["ulen"][u - 1] for u in a["d"]] for a in areas}
+    wsum = sum(sum(w) for w in weights.values())
+    est = int(thr / (2 + (11 + eol_len) / rlen))
+    base = {}
+    for a in areas[:-1]:
+        base[id(a)] = max(len(a["d"]), est * sum(weights[id(a)]) // wsum)
+    last = areas[-1]
+
+    def ulen_for(l_last):
+        ulen = list(b["ulen"])
+        for a in areas:
+            total = l_last if a is last else base[id(a)]
+            for u, n in zip(a["d"], _split(total, weights[id(a)])):
+                ulen[u - 1] = n
+        return ulen
+
+    def f(l_last):
+        return _scaled_text_len(b, ulen_for(l_last), rlen, eol_len)
+    lo, hi = len(last["d"]), max(2 * est, 64)
+    if f(lo) > thr:
+        raise ValueError("scaled: the threshold %d cannot be reached from below" % thr)
+    while f(hi) <= thr:
+        hi *= 2
+    while hi - lo > 1:                      # f is non-decreasing in the length of the last area
+        mid = (lo + hi) // 2
+        if f(mid) <= thr:
+            lo = mid
+        else:
+            hi = mid
+    return ulen_for(lo if sc["side"] == "below" else hi)
+
+
+def layout_scaled(b, rng):
+    ulen = scaled_unit_lengths(b)
+    bb = dict(b, ulen=ulen)
+    lay = layout_from_model_sized(bb, unit_blocks(ulen, rng), rng, rmax=b["scale"]["rlen"],
+                                  eol="\n" if b["scale"]["eol"] == "lf" else "\r\n")
+    lay.scale = dict(b["scale"])
+    want = _scaled_text_len(b, ulen, b["scale"]["rlen"], len(lay.eol))
+    if len(hex_text(lay)) != want:
+        raise ValueError("scaled: text length %d, planned %d" % (len(hex_text(lay)), want))
+    return lay
 
 
 def concretise(b, rng, blocks=None, bmap=None):
     """model layout b (with its size class) -> Layout"""
+    if b["size"] == "scaled":
+        return layout_scaled(b, rng)
     if b["size"] == "small":
         return layout_from_model(b, bmap or bytemap(rng), rng)
     return layout_from_model_sized(b, blocks or unit_blocks(b["ulen"], rng), rng)
@@ -920,7 +1034,7 @@ class Session:
         run = {"imgs": list(imgs), "pub": {"k": "pub", "n": pub_id}, "gens": list(gens), "exit": code,
                "files": files, "outleak": leaks((out + "\n" + err).encode(), needles), "hashes": hashes}
         info = {"argv": argv, "stdout": out[-600:], "stderr": err[-300:], "exc": exc, "notes": notes,
-                "hins": hins, "child": child}
+                "child": child}
         return run, info
 
 
@@ -1027,6 +1141,8 @@ def trace_of_layout(tid, layout, reports, hins, small, pareas=None):
          "expected": list(oracle_digest(layout)),
          "reports": [{"via": r["via"], "ok": bool(r["ok"]), "digest": list(r["digest"])} for r in reports],
          "total": layout.total(), "hinlens": [len(h) for h in hins],
+         "tlen": len(hex_text(layout)), "tthr": (layout.scale or {}).get("thr", 0),
+         "tside": (layout.scale or {}).get("side", "none"),
          "areas": [], "file": [], "oin": [], "hins": [], "parsed": pareas is not None, "pareas": []}
     if small:
         t["pareas"] = pareas or []
